@@ -206,16 +206,30 @@ func (p *psConn) count(kind string) int {
 	return n
 }
 
+// waitCount waits for the n-th event of a kind. A watchdog of ten seconds or more that fires is extended
+// once by a minute (a loaded machine decides nothing; a reply that never comes is still reported, later);
+// the extensions are counted.
 func (p *psConn) waitCount(kind string, n int, d time.Duration) bool {
 	deadline := time.Now().Add(d)
+	extended := false
 	for p.count(kind) < n {
-		if time.Now().After(deadline) || p.dead.Load() {
+		if p.dead.Load() {
 			return false
+		}
+		if time.Now().After(deadline) {
+			if extended || d < 10*time.Second {
+				return false
+			}
+			extended = true
+			c18WatchdogExtended.Add(1)
+			deadline = time.Now().Add(60 * time.Second)
 		}
 		time.Sleep(200 * time.Microsecond)
 	}
 	return true
 }
+
+var c18WatchdogExtended atomic.Int64
 
 type sugardbReadFn = func() []string
 
@@ -616,6 +630,7 @@ func c18History(ctx *Ctx, hi int) {
 	c18CheckHistory(ctx, conns, subs, pubs, fail, burstMax)
 	ctx.Eval(1)
 	ctx.Count("publishes", int64(len(pubs)))
+	ctx.Count("reply_watchdog_extended", c18WatchdogExtended.Swap(0))
 	if hi == 0 {
 		ctx.Sample("history", map[string]interface{}{"steps": trace, "publishes": len(pubs), "subscriptions": len(subs)})
 	}
